@@ -73,6 +73,7 @@ func VerifH_C01_truetype() {
 	f.Write(b1b)
 	verifMapOrder(false)
 	verifAssert(verifSame(b1.Bytes(), b1b.Bytes()), "writing the same font twice gives the same bytes")
+	verifObserve("file", b1.Bytes()) // translator validation: engine and native build must write the same file
 	g1, err := Read(bytes.NewReader(b1.Bytes()))
 	verifAssert(err == nil, "own file accepted")
 	if err != nil {
